@@ -3,8 +3,8 @@
    otelcol.Collector (harness/collector/c20).
 
    observed.ndjson holds many traces, each starting with a `reset` line; checks/C20.py has only
-   normalised the recorder's lines (every line has every field; for a Shutdown() call the sample
-   taken before the call is copied to the line written after it; lines after a `timeout` are cut).
+   normalised the recorder's lines (every line has every field, SIGINT is written as sigterm,
+   lines after a `timeout` are cut).
 
      ev        fields used           observation
      reset     id, comps             a new run: o = ObsInit(comps)
@@ -14,9 +14,10 @@
      shutdown / shutdown_end(ok)     Component.Shutdown entered / returned
      prov_shutdown                   Provider.Shutdown
      run_return ok                   Run returned (ok = FALSE: with an error)
-     ext kind (reg)                  an external event was injected: ctx, sigterm, sighup, change,
-                                     change_err, fatal, shutdown
-     ext_done  st0, bad              the Shutdown() calls of an injection have returned
+     ext kind (reg, iid)             an external event was injected: ctx, sigterm, sighup, change,
+                                     change_err, fatal, shutdown (iid: the Shutdown() calls start)
+     ext_done  iid, bad              the Shutdown() calls of injection iid have returned (bad: one of
+                                     them panicked or did not return)
      notify_done kind, bad           a change notification returned (bad: it panicked)
      fatal_seen gen                  the status reporter accepted a fatal error (seen by a watcher
                                      extension under the reporter's mutex)
@@ -49,7 +50,8 @@ Apply(ob, e) ==
     [] e.ev = "ext" /\ e.kind = "sigterm" -> OExtSigterm(ob, e.reg, e.st)
     [] e.ev = "ext" /\ e.kind = "sighup"  -> OExtSighup(ob, e.reg, e.st)
     [] e.ev = "ext" /\ e.kind = "change"  -> OExtChange(ob, e.st)
-    [] e.ev = "ext_done"     -> OExtShutdown(ob, e.st0, e.st, e.bad)
+    [] e.ev = "ext" /\ e.kind = "shutdown" -> OExtShutdownBegin(ob, e.iid, e.st)
+    [] e.ev = "ext_done"     -> OExtShutdownEnd(ob, e.iid, e.st, e.bad)
     [] e.ev = "notify_done"  -> ONotified(ob, e.kind = "change_err", e.bad, e.st)
     [] e.ev = "fatal_seen"   -> OFatalSeen(ob, e.gen, e.st)
     [] e.ev = "timeout"      -> OTimeout(ob, e.st)
